@@ -130,11 +130,20 @@ def lean_obligations(prop, thorough=False):
 # classification of operations
 # ---------------------------------------------------------------------------------------------
 
+def self_overlapping(ranges):
+    rs = sorted((lo, hi) for lo, hi in ranges)
+    return any(rs[k + 1][0] <= rs[k][1] for k in range(len(rs) - 1))
+
+
 def field_props(d, f, opkind):
     """properties an accessor operation on field f belongs to"""
     sp = f.get("spec")
     is_list = (sp is not None and (len(sp["ranges"]) > 1))
     props = set()
+    if is_list and self_overlapping(sp["ranges"]):
+        # a list that names a bit twice is outside C04's guarantee (its own words); what remains true of it – a write
+        # leaves the positions it does not cover alone, getters are functions of the register – is C12's statement
+        return {"C12", "C16"}
     if opkind == "get":
         if f["count"] is not None:
             props.add("C03")
